@@ -278,29 +278,39 @@ def deleteNodeProgT (thr : Nat) (id : Nat) (hint : List Nat) : Prog :=
 
 def deleteNodeProg (id : Nat) (hint : List Nat) : Prog := deleteNodeProgT PARALLEL_THRESHOLD id hint
 
+/-- `update_node`, the write: the node as read the second time, labels replaced when given -/
+def updateNodePut (id : Nat) (lab : Option Nat) (v : Nat) (v2 : Option Val) : Prog :=
+  match v2 with
+  | none => .done (.nodeNotFound id)
+  | some (.node l _) => .put (.node id) (.node (lab.getD l) v) (.done .ok)
+  | some _ => .put (.node id) (.node (lab.getD 0) v) (.done .ok)
+
+def updateNodeSecond (id : Nat) (lab : Option Nat) (v : Nat) : Prog :=
+  .get (.node id) (updateNodePut id lab v)
+
 /-- `update_node`: get_node, get again, put (labels replaced when given, property set) -/
 def updateNodeProg (id : Nat) (lab : Option Nat) (v : Nat) : Prog :=
   .get (.node id) fun v1 =>
     match v1 with
     | none => .done (.nodeNotFound id)
-    | some _ =>
-      .get (.node id) fun v2 =>
-        match v2 with
-        | none => .done (.nodeNotFound id)
-        | some (.node l _) => .put (.node id) (.node (lab.getD l) v) (.done .ok)
-        | some _ => .put (.node id) (.node (lab.getD 0) v) (.done .ok)
+    | some _ => updateNodeSecond id lab v
+
+/-- `update_edge`, the write: the record as read the second time with the property set -/
+def updateEdgePut (e : Nat) (v : Nat) (v2 : Option Val) : Prog :=
+  match v2 with
+  | none => .done (.edgeNotFound e)
+  | some (.edge r) => .put (.edge e) (.edge { r with ver := v }) (.done .ok)
+  | some other => .put (.edge e) other (.done .ok)
+
+def updateEdgeSecond (e : Nat) (v : Nat) : Prog :=
+  .get (.edge e) (updateEdgePut e v)
 
 /-- `update_edge`: get_edge, get again, put (property set; endpoints/type/direction kept) -/
 def updateEdgeProg (e : Nat) (v : Nat) : Prog :=
   .get (.edge e) fun v1 =>
     match edgeOf v1 with
     | none => .done (.edgeNotFound e)
-    | some _ =>
-      .get (.edge e) fun v2 =>
-        match v2 with
-        | none => .done (.edgeNotFound e)
-        | some (.edge r) => .put (.edge e) (.edge { r with ver := v }) (.done .ok)
-        | some other => .put (.edge e) other (.done .ok)
+    | some _ => updateEdgeSecond e v
 
 inductive Op where
   | createNode (label v : Nat)
